@@ -690,12 +690,8 @@ func generate(r *hx.Rand, thorough bool) ([]Feat, []string) {
 		g.fs = append(g.fs, Feat{ID: id, Tags: g.strTags(3), Members: ms})
 	}
 
-	// a tag whose value is a single feature id (known finding class: the index cannot represent it)
-	if r.Chance(1, 25) && len(g.fs) > 0 {
-		k := r.Intn(len(g.fs))
-		g.fs[k].Tags = append(g.fs[k].Tags, Tag{K: "b6:ref", V: Val{Kind: 'f', F: g.pick(g.points)}})
-		g.note("tag:feature-id-value")
-	}
+	// (a tag whose value is a single feature id is the known finding class fid-tag-value: the generator
+	// excludes exactly that class; its witness is in the corpus)
 
 	// source order: by type / shuffled / areas first (the validator has to queue them)
 	switch r.Intn(4) {
